@@ -36,6 +36,9 @@ pub struct Universe {
     /// for each import kind: the interface id wac attaches to it (Some for instance kinds
     /// taken from a package import/export named like an interface)
     pub import_kind_iface_id: Vec<Option<String>>,
+    /// (import name, kind) pairs not generated in-process because they are known to abort
+    /// the process (stack overflow); they are run in supervised subprocesses instead
+    pub isolated_imports: Vec<(String, usize)>,
 }
 
 impl Universe {
@@ -83,6 +86,7 @@ impl Universe {
             check_encode: true,
             dependency_imports: BTreeSet::new(),
             import_kind_iface_id: vec![],
+            isolated_imports: vec![],
         }
     }
 
@@ -573,7 +577,8 @@ pub fn check_encode(u: &Universe, st: &State, last: &str, extra: Option<&ExtraCh
     // interface. Every encode/interface/wiring symptom in such a state is one fingerprint.
     let renamed_iface = st.hist.iter().any(|op| match op {
         Op::Import(name, k) => {
-            st.model.imports.contains_key(name) && matches!(u.import_kind_iface_id.get(*k), Some(Some(id)) if id != name)
+            let id = u.import_kind_iface_id.get(*k).cloned().flatten();
+            st.model.imports.contains_key(name) && ((id.is_some() && id.as_deref() != Some(name)) || (name.contains('/') && name.contains(':') && !name.contains('<') && id.as_deref() != Some(name)))
         }
         _ => false,
     });
@@ -581,17 +586,29 @@ pub fn check_encode(u: &Universe, st: &State, last: &str, extra: Option<&ExtraCh
         let what = v.iter().map(|(f, w)| format!("{f}: {w}")).collect::<Vec<_>>().join(" || ");
         return (vec![(format!("{}/explicit-import-of-named-interface-under-another-name", u.prop), what)], classes);
     }
+    // Component-model values are linear: a value-kinded node that is not consumed exactly
+    // once makes the output invalid. One cause, one fingerprint.
+    if v.iter().any(|(f, _)| f.contains("ValidationFailure[value-")) {
+        let what = v.iter().map(|(f, w)| format!("{f}: {w}")).collect::<Vec<_>>().join(" || ");
+        return (vec![(format!("{}/value-linearity", u.prop), what)], classes);
+    }
     (v, classes)
 }
 
 fn check_encode_inner(u: &Universe, st: &State, last: &str, extra: Option<&ExtraCheck>) -> (Vec<Viol>, Vec<&'static str>) {
     let p = u.prop;
+    if std::env::var_os("VERIF_TRACE_ENCODE").is_some() {
+        eprintln!("TRACE encode {}", serde_json::to_string(&st.hist).unwrap());
+    }
     let mut v = Vec::new();
     let mut classes = Vec::new();
     let expect = encode_admissible(u, &st.model);
     let adm = &expect.adm;
     let tag = encode_tag(u, &st.model, last);
     let last = tag.as_str();
+    // panics and validation failures are identified by their message; the last operation
+    // is only kept for outcome mismatches
+    let cause = if tag.starts_with("after-") { "any-state" } else { tag.as_str() };
     for define in [true, false] {
         let mode = if define { "embedded" } else { "imported" };
         let mut results: Vec<Result<Vec<u8>, &'static str>> = Vec::new();
@@ -600,7 +617,7 @@ fn check_encode_inner(u: &Universe, st: &State, last: &str, extra: Option<&Extra
             match catch(|| st.real.encode(opts)) {
                 Err(panic) => {
                     v.push((
-                        format!("{p}/encode/panic/{mode}/{last}/{}", panic_site(&panic)),
+                        format!("{p}/encode/panic/{mode}/{cause}/{}", panic_site(&panic)),
                         format!("encode({mode}, validate={validate}) panicked: {panic}"),
                     ));
                     results.push(Err("panic"));
@@ -617,8 +634,9 @@ fn check_encode_inner(u: &Universe, st: &State, last: &str, extra: Option<&Extra
                             }
                             _ => String::new(),
                         };
+                        let at = if c == "ValidationFailure" { cause } else { last };
                         v.push((
-                            format!("{p}/encode/{c}{detail}/{mode}/{last}/want-{}", if adm.is_empty() { "Ok".to_string() } else { adm.iter().copied().collect::<Vec<_>>().join("|") }),
+                            format!("{p}/encode/{c}{detail}/{mode}/{at}/want-{}", if adm.is_empty() { "Ok".to_string() } else { adm.iter().copied().collect::<Vec<_>>().join("|") }),
                             format!("encode({mode}, validate={validate}) failed with {c}: {e:?}; model admits {adm:?}"),
                         ));
                     }
@@ -709,6 +727,10 @@ pub fn enabled_ops(u: &Universe, st: &State) -> (Vec<Op>, usize) {
     if on("Import") && room {
         for n in &u.import_names {
             for k in 0..u.import_kinds.len() {
+                if u.isolated_imports.iter().any(|(x, y)| x == n && *y == k) {
+                    unspecified += 1;
+                    continue;
+                }
                 ops.push(Op::Import(n.clone(), k));
             }
         }
